@@ -25,8 +25,8 @@ fn class_for(prog: &Prog, slot: usize, dfas: Option<&Vec<crate::rdfa::Dfa>>, kin
 }
 
 pub fn run(tape: &[u8], cx: &Cx) -> Outcome {
-    // the first third of the tape drives the string sampling, the rest the program
-    let (ta, tb) = tape.split_at(tape.len() / 3);
+    // the first two fifths of the tape drive the string sampling, the rest the program
+    let (ta, tb) = tape.split_at(tape.len() * 2 / 5);
     let mut t = Tape::new(ta);
     let mut tp = Tape::new(tb);
     // a fifth of the programs are "pattern pairs": a concatenation pattern s with ranges and Sigma*,
@@ -50,17 +50,41 @@ pub fn run(tape: &[u8], cx: &Cx) -> Outcome {
     let mut strings = sample_strings(&mut t, &prog.atoms, dfas.as_ref().map(|d| &d[last]), 6, 8);
     // large loop bounds: pumped strings u^k with k just below / at / just above the bounds in the program
     if dfas.is_none() {
-        let mut bounds: Vec<u32> = prog.ins.iter().filter(|i| i.is_loop()).map(|i| i.max_bound()).filter(|&b| b >= 5).collect();
+        let mut bounds: Vec<u32> = prog.ins.iter().filter(|i| i.is_loop()).map(|i| i.max_bound()).filter(|&b| b >= 2).collect();
         bounds.sort_unstable();
         bounds.dedup();
+        // nested loops multiply, concatenated loops add: products and sums of two bounds are boundaries too
+        let mut cands: Vec<u32> = bounds.iter().copied().filter(|&b| b >= 5).collect();
+        for (i, &a) in bounds.iter().enumerate() {
+            for &b in &bounds[i..] {
+                for v in [a.saturating_mul(b), a.saturating_add(b)] {
+                    if v >= 5 && v <= 110 {
+                        cands.push(v);
+                    }
+                }
+            }
+        }
+        cands.sort_unstable();
+        cands.dedup();
         let u: Vec<u32> = (0..1 + t.choose(2)).map(|_| prog.atoms.pick_landmark(&mut t)).collect();
-        for &b in bounds.iter().take(2) {
+        // up to two boundaries, chosen by the tape; strings up to 110 characters (the DP is cubic)
+        let mut chosen: Vec<u32> = Vec::new();
+        for _ in 0..2.min(cands.len()) {
+            let b = cands[t.choose(cands.len())];
+            if !chosen.contains(&b) {
+                chosen.push(b);
+            }
+        }
+        for &b in &chosen {
             for k in [b.saturating_sub(1), b, b + 1] {
                 let reps = (k as usize) / u.len().max(1);
-                if reps * u.len() <= 40 {
+                if reps * u.len() <= 110 {
                     let mut w = Vec::new();
                     for _ in 0..reps {
                         w.extend(&u);
+                    }
+                    if w.len() > 40 {
+                        o.tag("pumped-string>40");
                     }
                     strings.push(w);
                 }
@@ -149,7 +173,7 @@ pub fn run(tape: &[u8], cx: &Cx) -> Outcome {
     if first_bad.is_none() && o.fails.is_empty() {
         let p2 = prog.clone();
         let strs = strings.clone();
-        let res = std::thread::spawn(move || {
+        let res = crate::runner::spawn_user_thread(move || {
             catch(move || {
                 let terms = p2.build_wrapped();
                 let mut out = Vec::new();
